@@ -627,6 +627,10 @@ void sx127x_set_active_modem(sx127x_mode_t opmod, sx127x_modulation_t modulation
   if ((device->active_modem == SX127x_MODULATION_LORA) != (modulation == SX127x_MODULATION_LORA)) {
     sx127x_fsk_ook_reset_state(device);
   }
+  // a FSK/OOK receiver that is started begins with a new packet, whatever transmission or reception was abandoned before
+  if (modulation != SX127x_MODULATION_LORA && (opmod == SX127x_MODE_RX_CONT || opmod == SX127x_MODE_RX_SINGLE) && device->opmod != opmod) {
+    sx127x_fsk_ook_reset_state(device);
+  }
   device->active_modem = modulation;
   device->opmod = opmod;
 }
